@@ -167,6 +167,9 @@ class ProtocolCodeGenerator:
             code_block.add_line(f"{value.python_name} = {value.ordinal_value}")
             code_block.add_code_block(generate_docstring(get_comment(protocol_value)))
 
+        if not type_.values:
+            code_block.add_line("pass")
+
         code_block.unindent()
         code_block.add_import("IntEnum", "enum")
         code_block.add_import("ProtocolEnumMeta", "eolib.protocol.protocol_enum_meta")
